@@ -22,11 +22,15 @@ tvars == <<l, fails, prev, x>>
 NoX == [kind |-> "none", L |-> 0, sites |-> <<>>]
 BAD == -999999
 
+\* a CircuitMPS / CircuitPermMPS threads its own record (gate_opts["info"]) through gates and consumers; the
+\* observation is that record against the stored state circ._psi
+CircuitEvents == {"circ_gate", "circ_copy", "circ_sample", "circ_local_expectation", "circ_fidelity",
+                  "circ_amplitude", "circ_to_dense"}
 RecordEvents == {"canonicalize", "swap_sites", "swap_site_to", "gate_with_auto_swap", "gate_with_submpo",
                  "compress_site", "measure", "schmidt_values", "entropy", "schmidt_gap", "singular_values",
                  "bipartite_schmidt_state", "magnetization", "partial_trace_canonical",
                  "local_expectation_canonical", "compute_local_expectation_canonical",
-                 "sample_configuration", "sample"}
+                 "sample_configuration", "sample"} \cup CircuitEvents
 CallerEvents == {"left_canonize_site", "right_canonize_site", "left_canonicalize", "right_canonicalize", "shift",
                  "gate1", "gate_split", "compress", "gate_with_mpo", "normalize", "tensor_normalize"}
 
@@ -76,7 +80,8 @@ Clauses(ln, pv, first, xs) ==
   LET ev  == ln.ev
       a   == ln.args
       ok  == ln.exc = ""
-      pre == first \/ Sound(pv)                 \* the record handed to the call was sound
+      \* the record handed to the call was sound; a circuit owns its record, so nothing excuses its methods
+      pre == first \/ Sound(pv) \/ ev \in CircuitEvents
       preF == first \/ FlagSoundObs(pv.flags)
       rec == Rec(ln)
       qv(f) == HasQ(ln, f) => ln.q[f] = 0
@@ -104,7 +109,11 @@ Clauses(ln, pv, first, xs) ==
      <<"SchmidtGap",       (pre /\ ok /\ ev = "schmidt_gap") => qv("val")>>,
      <<"Magnetization",    (pre /\ ok /\ ev = "magnetization") => qv("val")>>,
      <<"ReducedDensity",   (pre /\ ok /\ ev = "partial_trace_canonical") => qv("val")>>,
-     <<"LocalExpectation", (pre /\ ok /\ ev \in {"local_expectation_canonical", "compute_local_expectation_canonical"}) => qv("val")>>,
+     <<"LocalExpectation", (pre /\ ok /\ ev \in {"local_expectation_canonical", "compute_local_expectation_canonical",
+                                                  "circ_local_expectation"}) => qv("val")>>,
+     \* fidelity / error estimate, amplitude, dense state, psi accessor, samples (only possible bit strings)
+     <<"CircuitQuery", (pre /\ ok /\ ev \in {"circ_fidelity", "circ_amplitude", "circ_to_dense", "circ_sample"}) =>
+          (qv("val") /\ (HasQ(ln, "p_ok") => ln.q.p_ok = 1))>>,
      <<"SampleProbability", (pre /\ ok /\ ev \in {"sample", "sample_configuration"}) => qv("val")>>,
      <<"ExactValue", (pre /\ ok /\ xs.kind # "none" /\ Has(ln, "q")) => ExactOK(ln, xs)>>,
      \* the driver plays the caller for methods without record argument: it must follow C08_Defs!CallerRecord
